@@ -193,7 +193,7 @@ class OpGen:
     """Generates ops that the *documented* rules accept, relative to the
     model's current state."""
 
-    def __init__(self, r_ops, r_args, model, weights=None, maxdepth=6, allow=None, size_choices=SIZES):
+    def __init__(self, r_ops, r_args, model, weights=None, maxdepth=7, allow=None, size_choices=SIZES):
         self.ro = r_ops
         self.ra = r_args
         self.m = model
